@@ -141,10 +141,15 @@ impl Expansion<'_> {
             })
             .collect();
         let fields_tys: Vec<_> = fields.iter().map(|(_, f)| &f.ty).collect();
-        let fields_tuple = syn::Type::Tuple(syn::TypeTuple {
-            paren_token: token::Paren::default(),
-            elems: fields_tys.iter().cloned().cloned().collect(),
-        });
+        // A single field converts into its own type, not into a 1-tuple.
+        let fields_tuple = if let [ty] = fields_tys.as_slice() {
+            (*ty).clone()
+        } else {
+            syn::Type::Tuple(syn::TypeTuple {
+                paren_token: token::Paren::default(),
+                elems: fields_tys.iter().cloned().cloned().collect(),
+            })
+        };
 
         [
             (&convs.owned, false, false),
